@@ -47,11 +47,30 @@ def bounds_table():
     return '\n'.join(rows)
 
 
+def mutants_table():
+    """measured/mutants_stage<k>.jsonl (+ _recheck: survivors re-run against all 20 checks) -> one row per stage"""
+    rows = ['| stage | mutants | killed by the 165 tests | survive the tests | of those: reported by a check | survive both (all read, see below) |', '|---|---|---|---|---|---|']
+    for f in sorted(glob.glob(os.path.join(HERE, 'measured', 'mutants_stage[0-9].jsonl'))):
+        rs = [json.loads(l) for l in open(f)]
+        caught = {(r['file'], r['index']) for r in rs if r.get('caught')}
+        rf = f.replace('.jsonl', '_recheck.jsonl')
+        note = ''
+        if os.path.exists(rf):
+            extra = {(r['file'], r['index']) for r in map(json.loads, open(rf)) if r.get('caught')}
+            note = ' (%d of them only once all 20 checks were run)' % len(extra - caught)
+            caught |= extra
+        surv = [r for r in rs if r.get('tests_pass')]
+        rows.append('| %s | %d | %d | %d | %d%s | %d |' % (os.path.basename(f)[8:-6], len(rs), len([r for r in rs if r.get('tests_pass') is False]), len(surv),
+                                                         len([r for r in surv if (r['file'], r['index']) in caught]), note,
+                                                         len([r for r in surv if (r['file'], r['index']) not in caught])))
+    return '\n'.join(rows)
+
+
 def main():
     p = os.path.join(HERE, 'DESIGN.md')
     s = open(p).read()
     evdir = sys.argv[1] if len(sys.argv) > 1 else os.path.join(HERE, 'measured')
-    for tag, text in (('SEEDED', seeded_table()), ('MEASURED', measured_table(evdir)), ('BOUNDS', bounds_table())):
+    for tag, text in (('SEEDED', seeded_table()), ('MEASURED', measured_table(evdir)), ('BOUNDS', bounds_table()), ('MUTANTS', mutants_table())):
         a, b = '<!-- BEGIN:%s -->' % tag, '<!-- END:%s -->' % tag
         if a in s:
             s = s[:s.index(a) + len(a)] + '\n' + text + '\n' + s[s.index(b):]
